@@ -563,3 +563,14 @@ def compare_projected(impl: "Impl", model_out: list[str], project) -> list[dict]
                         "impl_projection": pi, "model_projection": pm,
                         "history": impl.ops[: i + 1]})
     return dis
+
+
+def op_line(op: str) -> str | None:
+    """The received line of an 'R' op."""
+    t = op.split(" ")
+    if t[0] != "R":
+        return None
+    nf = int(t[1])
+    i = 2 + nf
+    n = int(t[i])
+    return "".join(chr(int(x)) for x in t[i + 1 : i + 1 + n])
